@@ -8,6 +8,7 @@ Driver of C19 (import-free).
   kl <coef> <basis> m             -> `data` `scale`   (matrices; scale = Σ|c_k B_kj| per entry)
   bm init sd <draws>              -> standard Brownian path
   geom init <factors>             -> geometric path
+  zc <cos> <sin> c0 c1 c2 <eps>   -> one Zhang–Chen curve
   grid <t>                        -> ok | error:ValueError
   trace <seeded 0|1> <before 0|1> <ownflags> <globflags> ev ev …
         generators are scripted streams: the i-th draw of a stream returns (stream, i, flag_i);
@@ -98,6 +99,10 @@ def answer (l : String) : String :=
     match parseRat? i, parseVec? f with
     | some i, some f => showVec (geomPath i f)
     | _, _ => "bad"
+  | ["zc", cs, sn, c0, c1, c2, ep] =>
+    match parseVec? cs, parseVec? sn, parseRat? c0, parseRat? c1, parseRat? c2, parseVec? ep with
+    | some cs, some sn, some c0, some c1, some c2, some ep => showVec (zhangChenRow cs sn c0 c1 c2 ep)
+    | _, _, _, _, _, _ => "bad"
   | ["grid", t] =>
     match parseVec? t with
     | some t => match brownianGrid t with | .ok _ => "ok" | .error _ => "error:ValueError"
